@@ -87,7 +87,7 @@ CHECKS = {
     },
     "C05": {
         "bins": True,
-        "engines": lambda tier: [{"engine": "e4", "shards": 4, "timeout_s": 1500, "args": {"family": "c05", "scenarios": 60 if tier == "thorough" else 10, "parallel": 12 if tier == "thorough" else 10}}],
+        "engines": lambda tier: [{"engine": "e4", "shards": 4, "timeout_s": 6000, "args": {"family": "c05", "scenarios": 400 if tier == "thorough" else 10, "parallel": 12 if tier == "thorough" else 10}}],
         "level": "fault_enumeration",
         "rule": "case = one scenario against the real watchtower-client binary (driven over its stdin/stdout plugin protocol) and 1-3 scripted fake towers: 3-7 commitment "
                 "revocations (half of the scenarios notify one of them twice), each tower answering every add_appointment per a random script over {accept, subscription "
@@ -107,7 +107,7 @@ CHECKS = {
     },
     "C13": {
         "bins": True,
-        "engines": lambda tier: [{"engine": "e4", "shards": 4, "timeout_s": 2400, "args": {"family": "c13", "scenarios": 80 if tier == "thorough" else 12, "parallel": 16 if tier == "thorough" else 12}},
+        "engines": lambda tier: [{"engine": "e4", "shards": 4, "timeout_s": 6000, "args": {"family": "c13", "scenarios": 400 if tier == "thorough" else 12, "parallel": 16 if tier == "thorough" else 12}},
                                  {"engine": "e3p", "shards": 4, "timeout_s": 3000, "args": {"cases": 15 if tier == "thorough" else 2}}],
         "level": "fault_enumeration",
         "rule": "case = one outage/recovery scenario against the real client binary (max-retry-time 2-3 s, auto-retry-delay 3-4 s, max-interval 1 s) and one fake tower: error kind "
@@ -127,7 +127,7 @@ CHECKS = {
     },
     "C14": {
         "bins": True,
-        "engines": lambda tier: [{"engine": "e4", "shards": 4, "timeout_s": 1500, "args": {"family": "c14", "scenarios": 60 if tier == "thorough" else 8, "parallel": 10 if tier == "thorough" else 8}}],
+        "engines": lambda tier: [{"engine": "e4", "shards": 4, "timeout_s": 6000, "args": {"family": "c14", "scenarios": 300 if tier == "thorough" else 8, "parallel": 10 if tier == "thorough" else 8}}],
         "level": "exploration",
         "rule": "case = one reply of a fake tower to the real client binary: to registertower or to add_appointment, either a raw misbehaviour (non-JSON, wrong shape, signature "
                 "by another key, undecodable signature, empty, 3 MB body, HTTP 500, connection closed) or a structured mutation of a valid reply (every field dropped / null / "
